@@ -11,18 +11,27 @@ cp $WT/_seed/patch.diff $WT/_seed/meta.json $D/ 2>/dev/null
 cp $WT/_seed/RUN.txt $WT/_seed/demo.* $D/ 2>/dev/null
 rm -f $D/demo
 LOG=$D/confirm.log; : > $LOG
+echo "== worktree reset to HEAD + the recorded patch only (git stash is shared between worktrees: never used here)" | tee -a $LOG
+( cd $WT && git checkout -q -- src inc && git apply _seed/patch.diff && git status --short -- src inc | tr "\n" " " ) | tee -a $LOG
 echo "== with change: build + ctest" | tee -a $LOG
 ( cd $WT && cmake --build _build -j16 2>&1 | tail -1 && ctest --test-dir _build 2>&1 | grep "tests passed" ) | tee -a $LOG
 echo "== with change: demo (expect failure)" | tee -a $LOG
 ( cd $WT && bash -c "$(grep -v "^#" _seed/RUN.txt | head -3 | tr "\n" " " | sed "s#WT/#$WT/#g; s#WT #$WT #g")" > /tmp/demo_with.out 2>&1; echo "exit=$?" ) | tee -a $LOG; tail -3 /tmp/demo_with.out | cut -c1-300 | tee -a $LOG
 echo "== without change: demo (expect pass)" | tee -a $LOG
-( cd $WT && git stash -q -- src inc && bash -c "$(grep -v "^#" _seed/RUN.txt | head -3 | tr "\n" " " | sed "s#WT/#$WT/#g; s#WT #$WT #g")" > /tmp/demo_without.out 2>&1; echo "exit=$?"; git stash pop -q ) | tee -a $LOG; tail -2 /tmp/demo_without.out | cut -c1-300 | tee -a $LOG
-echo "== checks on /repo with the patch applied" | tee -a $LOG
-cd /repo && git apply $D/patch.diff || { echo "PATCH DOES NOT APPLY" | tee -a $LOG; exit 1; }
+( cd $WT && git apply -R _seed/patch.diff && (cmake --build _build -j16 >/dev/null 2>&1; true) && bash -c "$(grep -v "^#" _seed/RUN.txt | head -3 | tr "\n" " " | sed "s#WT/#$WT/#g; s#WT #$WT #g")" > /tmp/demo_without.out 2>&1; echo "exit=$?"; git apply _seed/patch.diff ) | tee -a $LOG; tail -2 /tmp/demo_without.out | cut -c1-300 | tee -a $LOG
+if [ "${SEED_INPLACE:-0}" = 1 ]; then
+  echo "== checks on /repo with the patch applied" | tee -a $LOG
+  cd /repo && git apply $D/patch.diff || { echo "PATCH DOES NOT APPLY" | tee -a $LOG; exit 1; }
+else
+  echo "== checks with VERIF_REPO=$WT (the worktree carrying exactly the patch; /repo untouched)" | tee -a $LOG
+  export VERIF_REPO=$WT
+fi
 cd /verif
 for p in "$@"; do
-  ./check $p > /tmp/seed_check.out 2>&1; rc=$?
-  echo "check $p rc=$rc: $(grep -c '^VIOLATION' /tmp/seed_check.out) violation lines; $(grep '^VIOLATION' /tmp/seed_check.out | head -3 | sed 's/.*replay=//' | tr '\n' ' ')" | tee -a $LOG
-  grep "^UNDECIDED" /tmp/seed_check.out | head -3 | cut -c1-200 | tee -a $LOG
+  ./check $p > /tmp/seed_check_$NAME.out 2>&1; rc=$?
+  echo "check $p rc=$rc: $(grep -c '^VIOLATION' /tmp/seed_check_$NAME.out) violation lines; $(grep '^VIOLATION' /tmp/seed_check_$NAME.out | head -3 | sed 's/.*replay=//' | tr '\n' ' ')" | tee -a $LOG
+  grep "^UNDECIDED" /tmp/seed_check_$NAME.out | head -3 | cut -c1-200 | tee -a $LOG
 done
-git -C /repo checkout -- . && echo "repo restored: $(git -C /repo status --short | grep -v _build | wc -l) modified files" | tee -a $LOG
+if [ "${SEED_INPLACE:-0}" = 1 ]; then
+  git -C /repo checkout -- . && echo "repo restored: $(git -C /repo status --short | grep -v _build | wc -l) modified files" | tee -a $LOG
+fi
